@@ -1,9 +1,9 @@
 package rules
 
 import (
-	"go/types"
 	"fmt"
 	"go/token"
+	"go/types"
 	"strings"
 
 	"golang.org/x/tools/go/ssa"
@@ -24,7 +24,7 @@ func init() {
 			{"C07/records", ruleC07Records},
 		},
 		Explanation: "Decides the shape of annotation flow in the evaluator for all schemas and instances at once: (R1) at every recursive evaluation site the annotations argument is the frame's own collector iff the instance argument is the evaluator's own instance location and the schema is not `not`; child locations and `not` pass nil; the in-place/child class of the schema field agrees with the instance location; (R2) the caller's collector is written only through one merge of the frame's collector, after which only the success epilogue can execute; (R3) merge reads and writes every field of the annotation record; (R4) the collector is a per-activation variable; (order) no in-place evaluation is reachable after an application of unevaluatedItems/unevaluatedProperties except in a kind-exclusive region; (complement) unevaluated* is applied only where the merged record says not-evaluated. It does NOT decide that each keyword records the right indexes and names, nor the verdict of any concrete case.",
-		NotDecided: []string{"that prefixItems/contains/properties record the right indexes and names", "the verdict of any concrete schema/instance pair"},
+		NotDecided:  []string{"that prefixItems/contains/properties record the right indexes and names", "the verdict of any concrete schema/instance pair"},
 	})
 }
 
@@ -1061,7 +1061,9 @@ func init() {
 	p := Properties["C07"]
 	p.Rules = append(p.Rules, Rule{"C07/no-applicator-skipped", ruleC07NoApplicatorSkipped})
 	p1 := Properties["C01"]
-	p1.Rules = append(p1.Rules, Rule{"C01/no-applicator-skipped", func(c *Ctx) { runAs(c, "C01/no-applicator-skipped", "C07/no-applicator-skipped", ruleC07NoApplicatorSkipped) }})
+	p1.Rules = append(p1.Rules, Rule{"C01/no-applicator-skipped", func(c *Ctx) {
+		runAs(c, "C01/no-applicator-skipped", "C07/no-applicator-skipped", ruleC07NoApplicatorSkipped)
+	}})
 }
 
 // which other keywords may legitimately decide whether (or from where) a keyword's subschemas are applied
